@@ -1,8 +1,8 @@
 """C09 — see DESIGN.md section 6."""
 from proto_engine import *
 
-MODULE = "Feox.Props.C09"
-THEOREMS = ['Feox.C09.device_recovers_flush_succeeds', 'Feox.Proto.Dur.flush_can_complete', 'Feox.Proto.Dur.step_inv2', 'Feox.C09.ack_implies_durable', 'Feox.C09.failure_never_destroys_durable', 'Feox.C09.failed_write_cleanup_safe', 'Feox.C09.inv_under_faults']
+MODULE = "Feox.Props.C09W"
+THEOREMS = ['Feox.C09.failed_write_keeps_durable_records_on_bytes', 'Feox.Fmt.recover_crashed_front_write', 'Feox.Fmt.recover_crashed_retirement', 'Feox.C09.device_recovers_flush_succeeds', 'Feox.Proto.Dur.flush_can_complete', 'Feox.Proto.Dur.step_inv2', 'Feox.C09.ack_implies_durable', 'Feox.C09.failure_never_destroys_durable', 'Feox.C09.failed_write_cleanup_safe', 'Feox.C09.inv_under_faults']
 
 
 def run(ctx):
